@@ -131,6 +131,7 @@ struct Manifest {
   std::string text() const {
     std::string t = "# generated\nrule cc\n  command = /sim/bin/cc $name -s $salt -- $in\n  description = CC $out\n";
     t += "rule ccdep\n  command = /sim/bin/cc $name -s $salt -- $in\n  depfile = $dep\n  deps = gcc\n";
+    t += "rule ccdep2\n  command = /sim/bin/cc $name -s $salt -- $in\n  depfile = $dep\n";   // depfile alone implies deps = gcc
     t += "rule ccrestat\n  command = /sim/bin/cc $name -s $salt -- $in\n  restat = 1\n";
     t += "rule ccgen\n  command = /sim/bin/cc $name -s $salt -- $in\n  generator = 1\n";
     t += "rule ccrsp\n  command = /sim/bin/cc $name -s $salt -- @$rsp\n  rspfile = $rsp\n  rspfile_content = $in\n";
@@ -140,7 +141,7 @@ struct Manifest {
       for (auto& o : s.outs) t += " " + o;
       t += ": ";
       if (s.phony) t += "phony";
-      else t += s.depfile ? "ccdep" : s.restat ? "ccrestat" : s.generator ? "ccgen" : s.rsp ? "ccrsp" : "cc";
+      else t += s.depfile ? (s.salt % 2 ? "ccdep" : "ccdep2") : s.restat ? "ccrestat" : s.generator ? "ccgen" : s.rsp ? "ccrsp" : "cc";
       for (auto& i : s.explicitIns) t += " " + i;
       if (!s.implicitIns.empty()) {
         t += " |";
@@ -253,6 +254,36 @@ struct Run {
     return true;
   }
 
+  // the explicit and implicit inputs of a statement with phony aliases replaced by what they stand for
+  std::vector<std::string> effectiveInputs(const Stmt& st, std::vector<const Stmt*>* aliases = nullptr) const {
+    std::vector<std::string> out, work;
+    for (auto* lst : {&st.explicitIns, &st.implicitIns})
+      for (auto& i : *lst) work.push_back(i);
+    for (size_t w = 0; w < work.size() && w < 256; w++) {
+      const Stmt* p = man.producer(work[w]);
+      if (p && p->phony) {
+        if (aliases) aliases->push_back(p);
+        for (auto* lst : {&p->explicitIns, &p->implicitIns})
+          for (auto& i : *lst) work.push_back(i);
+      } else if (std::find(out.begin(), out.end(), work[w]) == out.end()) {
+        out.push_back(work[w]);
+      }
+    }
+    return out;
+  }
+
+  // what the tool sees of a statement: inputs that are phony aliases are not files and are not read
+  wb::Cmd cmdFor(const Stmt& st) const {
+    wb::Cmd c = st.asCmd();
+    std::vector<std::string> keep;
+    for (auto& i : c.inputs) {
+      const Stmt* p = man.producer(i);
+      if (!(p && p->phony)) keep.push_back(i);
+    }
+    c.inputs = keep;
+    return c;
+  }
+
   std::map<std::string, std::pair<bool, std::string>> memo;
   bool expected(const std::string& path, std::string* out) {
     auto m = memo.find(path);
@@ -262,7 +293,7 @@ struct Run {
     }
     const Stmt* p = man.producer(path);
     if (!p || p->phony) return readSim(path, out);
-    wb::Cmd c = p->asCmd();
+    wb::Cmd c = cmdFor(*p);
     wb::ReadFn rd = [this, &c](const std::string& q, std::string* o) -> bool {
       if (std::find(c.inputs.begin(), c.inputs.end(), q) != c.inputs.end() && man.producer(q) && !man.producer(q)->phony) return expected(q, o);
       return readSim(q, o);
@@ -338,7 +369,7 @@ struct Run {
       }
       rspReads++;
     }
-    wb::Cmd cmd = st->asCmd();
+    wb::Cmd cmd = cmdFor(*st);
     wb::ReadFn rd = [&c](const std::string& p, std::string* out) -> bool {
       std::string full = !p.empty() && p[0] == '/' ? p : c.cwd + "/" + p;
       simfs::InodeP ino;
@@ -478,25 +509,25 @@ struct Run {
       int status = !useDb ? Rec::Never : r ? r->status : Rec::Never;
       Tri upFail = N, upChanged = N, upValue = N, ordFail = N;
       bool missing = false, producerSetChanged = false;
-      for (auto* lst : {&s->explicitIns, &s->implicitIns})
-        for (auto& i : *lst) {
-          const Stmt* p = man.producer(i);
-          if (!p) {
-            if (!stateOf(i).exists) missing = true;
-          } else if (p->phony) {
-            // the value of a phony statement without a file behind it always propagates
-            upFail = or3(upFail, pFail[p->name]);
-            upChanged = or3(upChanged, M);
-            upValue = or3(upValue, M);
-          } else {
-            upFail = or3(upFail, pFail[p->name]);
-            upChanged = or3(upChanged, pathChanged.count(i) ? pathChanged[i] : pChanged[p->name]);
-            upValue = or3(upValue, pathValue.count(i) ? pathValue[i] : pValue[p->name]);
-            // built in an invocation that did not reach this statement: its stored result may differ from the one seen here
-            if (r && recs.count(p->name) && r->seenCmd.count(i) && r->seenCmd[i] != recs[p->name].cmdline) upValue = or3(upValue, M);
-          }
-          if (r && status != Rec::Never && r->produced.count(i) != (p ? 1u : 0u)) producerSetChanged = true;
+      std::vector<const Stmt*> aliases;
+      std::vector<std::string> eff = effectiveInputs(*s, &aliases);
+      for (auto* a : aliases) upFail = or3(upFail, pFail[a->name]);
+      for (auto& i : eff) {
+        const Stmt* p = man.producer(i);
+        if (!p) {
+          if (!stateOf(i).exists) missing = true;
+        } else {
+          upFail = or3(upFail, pFail[p->name]);
+          upChanged = or3(upChanged, pathChanged.count(i) ? pathChanged[i] : pChanged[p->name]);
+          upValue = or3(upValue, pathValue.count(i) ? pathValue[i] : pValue[p->name]);
+          // built in an invocation that did not reach this statement: its stored result may differ from the one seen here
+          if (r && recs.count(p->name) && r->seenCmd.count(i) && r->seenCmd[i] != recs[p->name].cmdline) upValue = or3(upValue, M);
         }
+        if (r && status != Rec::Never && r->produced.count(i) != (p ? 1u : 0u)) producerSetChanged = true;
+      }
+      // an alias with nothing behind it (and no file of that name) always propagates
+      for (auto* a : aliases)
+        if (a->explicitIns.empty() && a->implicitIns.empty() && !stateOf(a->outs[0]).exists) upChanged = or3(upChanged, Y);
       for (auto& i : s->orderOnly) {
         std::vector<const Stmt*> ps;
         bool viaPhony = false;
@@ -510,8 +541,7 @@ struct Run {
       // update-if-newer: all that decides for a generator statement nothing is remembered about
       auto olderThanInputs = [&]() {
         uint64_t newest = 0;
-        for (auto* lst : {&s->explicitIns, &s->implicitIns})
-          for (auto& i : *lst) newest = std::max(newest, stateOf(i).mtime);
+        for (auto& i : eff) newest = std::max(newest, stateOf(i).mtime);
         for (auto& o : s->outs) {
           FileState os = stateOf(o);
           if (!os.exists || os.mtime < newest) return true;
@@ -523,9 +553,8 @@ struct Run {
         if (r->cmdline != s->commandLine() && !s->generator) stateChanged = true;
         for (auto& o : s->outs)
           if (!stateOf(o).exists) stateChanged = true;
-        for (auto* lst : {&s->explicitIns, &s->implicitIns})
-          for (auto& i : *lst)
-            if (!r->ins.count(i) || stateOf(i) != r->ins[i]) stateChanged = true;
+        for (auto& i : eff)
+          if (!r->ins.count(i) || stateOf(i) != r->ins[i]) stateChanged = true;
         for (auto& d : r->discovered)
           if (!r->ins.count(d) || stateOf(d) != r->ins[d]) stateChanged = true;
       }
@@ -730,6 +759,11 @@ struct Run {
       } else {
         Rec& r = recs[s->name];
         bool untouched = r.status == Rec::Ok && pOwn[s->name] == N && pRun[s->name] == N && pFail[s->name] == N;
+        // an alias is re-evaluated in every invocation; in one that a failure cancelled it may have been recorded as skipped,
+        // and whoever depends on it then sees its result change back in the next invocation
+        std::vector<const Stmt*> al;
+        effectiveInputs(*s, &al);
+        if (!al.empty()) untouched = false;
         if (untouched) {
         } else if (!s->generator && pOwn[s->name] == Y) r.status = Rec::Invalid;
         else r.status = Rec::Unknown;
@@ -739,18 +773,17 @@ struct Run {
         r.status = Rec::Ok;
         r.cmdline = s->commandLine();
         if (s->generator && recs.count(s->name) && recs[s->name].status == Rec::Ok && !ranOk.count(s->name)) r.cmdline = recs[s->name].cmdline;
-        for (auto* lst : {&s->explicitIns, &s->implicitIns})
-          for (auto& i : *lst) {
-            r.ins[i] = stateOf(i);
-            if (const Stmt* ip = man.producer(i)) {
-              r.produced.insert(i);
-              if (!ip->phony && recs.count(ip->name)) r.seenCmd[i] = recs[ip->name].cmdline;
-            }
+        for (auto& i : effectiveInputs(*s)) {
+          r.ins[i] = stateOf(i);
+          if (const Stmt* ip = man.producer(i)) {
+            r.produced.insert(i);
+            if (!ip->phony && recs.count(ip->name)) r.seenCmd[i] = recs[ip->name].cmdline;
           }
+        }
         for (auto& o : s->outs) r.outs[o] = stateOf(o);
         if (s->depfile) {
           if (ranOk.count(s->name)) {
-            wb::Cmd c = s->asCmd();
+            wb::Cmd c = cmdFor(*s);
             wb::ReadFn rd = [this](const std::string& p, std::string* out) { return readSim(p, out); };
             wb::ToolResult tr = wb::toolCompute(c, rd);
             r.discovered = tr.discovered;
@@ -861,6 +894,7 @@ public:
       sources[srcs.back()] = c;
     }
     Manifest man;
+    std::string aliasName;
     int n = (int)rng.range(2, opt.tier == "thorough" ? 10 : 7);
     for (int i = 0; i < n; i++) {
       Stmt s;
@@ -892,8 +926,28 @@ public:
       else if (kind < 50) s.generator = true;
       else if (kind < 62) s.rsp = true;
       if (rng.chance(250)) s.pool = (int)rng.range(1, 3);   // 3: ninja's console pool (depth 1, output not buffered)
+      // later statements may depend on an alias (a phony statement with no file behind it) instead of on files
+      if (!aliasName.empty() && rng.chance(450)) {
+        unsigned how = (unsigned)rng.below(3);
+        if (how == 0 && !used.count(aliasName)) s.implicitIns.push_back(aliasName);
+        else if (how == 1) s.orderOnly.push_back(aliasName);
+        else s.explicitIns.push_back(aliasName);
+      }
       man.stmts.push_back(s);
       for (auto& o : s.outs) products.push_back(o);
+      if (aliasName.empty() && i >= 1 && i + 1 < n && rng.chance(350)) {
+        Stmt al;
+        al.name = "alias";
+        al.phony = true;
+        al.outs = {"alias"};
+        int na = (int)rng.range(1, 2);
+        for (int k = 0; k < na; k++) {
+          std::string p = rng.chance(800) ? products[rng.below(products.size())] : srcs[rng.below(srcs.size())];
+          if (std::find(al.explicitIns.begin(), al.explicitIns.end(), p) == al.explicitIns.end()) al.explicitIns.push_back(p);
+        }
+        man.stmts.push_back(al);
+        aliasName = "alias";
+      }
     }
     if (rng.chance(600)) {
       Stmt ph;
@@ -1056,6 +1110,8 @@ public:
     uint64_t t0 = sim::now_ns();
     run.execute();
     sim::end();
+    if (getenv("VSIM_TRACE"))
+      for (auto& l : run.log) fprintf(stderr, "  %s\n", l.c_str());
     simfs::useSimCwd(false);
     run.res.simtime_us = (sim::now_ns() - t0) / 1000;
     run.res.evhash = run.evh.get();
